@@ -9,6 +9,8 @@ reused from sibling methods; unknown fields) and by the field-related scenarios 
 import Gv.Model.Eval
 import Gv.Model.Gen
 import Gv.Proofs.GenLemmas
+import Gv.Proofs.UpdateSound
+import Gv.Proofs.PlanCheckUSound
 
 namespace Gv.Props.C05
 open Gv Gv.Str Gv.Gen Gv.Eval
@@ -111,5 +113,69 @@ theorem C05_unknown_field_rejected (c : Converter) (fuel : Nat) (cx : Ctx) (iu p
   unfold structAssign
   simp [hauto, hts, bind, StateT.bind, Except.bind, pure, StateT.pure, Except.pure, hplans, hft, hfields, hno, fail, throw, throwThe,
     MonadExceptOf.throw, StateT.lift]
+
+/-! ### The composite theorem: ignored fields of a conversion are left unassigned, the others hold the images
+
+`PlanCheck.checkProgU` is the decidable fragment test (structural plans + ignored fields + zero-value guards + update
+methods).  For every program that passes, every conversion method `m` whose body is the struct conversion `plans`, every
+well-typed source struct and every fuel: the result is a struct, and for the `i`-th target field `tf : tty` with plan `f`:
+  * `f = .skip _` (goverter:ignore, ignoreMissing without match, ignoreUnexported): the field holds the zero value of `tty`
+    — it is left unassigned in the freshly declared result variable;
+  * `f = .mapped …`: the field holds the conversion of the same-named source field (`Spec.FieldOutcome`, the previous value
+    being the zero value).  (Locations erased.) -/
+
+open Gv.Typing Gv.Spec Gv.Sound in
+theorem C05_composite_ignored_unassigned (p : Program) (hchk : PlanCheck.checkProgU p = true)
+    (fuel m : Nat) (gm : GenMethod) (plans : FieldPlans) (upd : Bool)
+    (hm : p.methods[m]? = some gm) (hb : gm.body = some (.convert (.structc plans upd)))
+    (sfs tfs : Fields) (hs : under p.conv.env gm.source = .struct sfs) (ht : under p.conv.env gm.target = .struct tfs)
+    (fs : List (S × Val)) (hwt : WT p.conv.env (.struct fs) gm.source) (cs : List Val) (n : Nat) (v' : Val) (n' : Nat)
+    (hev : Eval.callMethod p fuel m (.struct fs) cs n = .ok (v', n')) :
+    ∃ ws, v' = .struct ws ∧
+      ∀ (i : Nat) (tf : FieldInfo) (tty : Ty), tfs.toList[i]? = some (tf, tty) →
+        ∃ f, plans.toList[i]? = some f ∧
+          (∀ nm, f = .skip nm → (erase.eraseFields ws).lookup tf.name = some (erase (zeroVal p.conv.env 63 tty))) ∧
+          FieldOutcome p.conv.env sfs.toList fs tf tty
+            (erase.eraseFields (zeroVal.zeroFields p.conv.env 63 tfs.toList)) (erase.eraseFields ws) f := by
+  obtain ⟨hnd, ws, hv', himg⟩ := convert_struct_onto p (checkProgU_sound p hchk) fuel m gm plans upd hm hb sfs tfs hs ht fs hwt
+    cs n v' n' hev
+  refine ⟨ws, hv', fun i tf tty hi => ?_⟩
+  obtain ⟨f, hf, hout⟩ := himg.outcome i tf tty hi
+  refine ⟨f, hf, fun nm hnm => ?_, hout⟩
+  rw [hout.1 nm hnm, lookup_eraseFields, zeroFields_lookup_at _ 63 tfs.toList i tf tty hnd hi]
+  rfl
+
+/-! non-vacuity: a concrete conversion with an ignored field passes the check and is computed: `K` is left at zero -/
+
+def iFields : Fields :=
+  .cons { name := "A".toList, exported := true, embedded := false, pkg := [] } (.basic .int)
+    (.cons { name := "K".toList, exported := true, embedded := false, pkg := [] } (.basic .int) .nil)
+
+def iPlans : FieldPlans :=
+  .cons (.mapped "A".toList ["A".toList] [false] false false .ident .none) (.cons (.skip "K".toList) .nil)
+
+def iMethod : GenMethod :=
+  { name := "Convert".toList, source := .struct iFields, target := .struct iFields, args := [], contexts := [],
+    returnError := false, updateTarget := false, explicit := true, dirty := false, originPath := [], originName := [],
+    cfg := { common := {} }, body := some (.convert (.structc iPlans false)) }
+
+def iProgram : Program :=
+  { conv := { env := [], common := {}, outputPkg := [], customs := [], extend := [], orc := {} }, methods := [iMethod] }
+
+def iSrc : List (S × Val) := [("A".toList, .basic "5".toList), ("K".toList, .basic "1".toList)]
+
+example : PlanCheck.checkProgU iProgram = true := by decide
+
+example : Eval.callMethod iProgram 10 0 (.struct iSrc) [] 0 =
+    .ok (.struct [("A".toList, .basic "5".toList), ("K".toList, .basic "0".toList)], 0) := by
+  unfold Eval.callMethod
+  simp [iProgram, iMethod, iPlans, iSrc, iFields, evalConv, evalFields, walk, fieldOf, setField, normStruct,
+    zeroVal, zeroVal.zeroFields, zeroBasic, under, Fields.toList, Val.isAbsent, pure, StateT.pure, List.lookup]
+
+open Gv.Typing in
+example : WT iProgram.conv.env (.struct iSrc) (.struct iFields) :=
+  WT_struct_of_basics (tfs := iFields) rfl
+    (by intro q hq; simp [iSrc] at hq; rcases hq with rfl | rfl <;> exact ⟨_, rfl⟩)
+    (by intro q hq; simp [iFields, Fields.toList] at hq; rcases hq with rfl | rfl <;> exact ⟨_, rfl⟩)
 
 end Gv.Props.C05
